@@ -789,6 +789,46 @@ def windowed_start(res, meth, form):
     after = read_tree(dest)
     res.count("windowed-start-%s" % METH[meth])
     res.case(("windowed-start", meth, form), nontrivial=True)
+    # ---- the same window applied to LIVE events: a second mirror that ignores existing files receives a
+    #      creation event for every file; exactly the files whose name time lies in the window are mirrored
+    #      (plus the properties files of the start-up replay)
+    if after == want:
+        import re
+        from watchdog import events
+        dest2 = os.path.join(base, "dest2")
+        os.makedirs(dest2)
+        src_now = read_tree(src)
+        cls._init_observer = lambda _s: None
+        try:
+            m2 = cls(src, dest2, method=METH[meth], starttime=st, endtime=en, ignore_existing=True)
+        finally:
+            cls._init_observer = orig
+        m2.observer = _NoObserver()
+        so, dn = sys.stdout, open(os.devnull, "w")
+        sys.stdout = dn
+        try:
+            m2.start()
+            for k in sorted(src_now):
+                for hd in m2.event_handlers:
+                    hd.dispatch(events.FileCreatedEvent(os.path.join(src, k)))
+        finally:
+            sys.stdout = so
+            dn.close()
+        lo = (T0 + 1) * 1000 + 500
+        hi = (T0 + 3) * 1000 + 200
+        want2 = {}
+        for k, v in src_now.items():
+            mm = re.search(r"@(\d+)(?:\.(\d{3}))?\.h5$", k)
+            if mm is None:
+                want2[k] = v                                   # properties files
+            elif lo <= int(mm.group(1)) * 1000 + int(mm.group(2) or 0) <= hi:
+                want2[k] = v
+        after2 = read_tree(dest2)
+        res.count("windowed-live-%s" % METH[meth])
+        if after2 != want2:
+            res.violation("windowed-live-events-not-mirrored", "live creation events of files inside the mirror's time window were not "
+                          "mirrored (or files outside it were)", {"meth": meth, "windowed_live": True, "starttime": str(st), "endtime": str(en)},
+                          sorted(want2), {"missing": sorted(set(want2) - set(after2)), "extra": sorted(set(after2) - set(want2))})
     if after != want:
         res.violation("windowed-start-not-mirrored", "after the start-up replay of a mirror with a time window the destination is not what "
                       "the listing with the same window selects (incl. the metadata file in force at the start time)",
